@@ -8,12 +8,12 @@ import cont_common as cc
 LEVEL = "model_checking"
 
 
-def _report(ctx, cases, mism):
+def _report(ctx, cases, mism, profile="release"):
     for o in mism:
         c = cases[o["i"]]
         img = o.get("image", o.get("expected"))
         one = {"v": c["v"], "canon": c["canon"], "layouts": [img] if o["what"] == "parse-layout" else []}
-        ctx.violation({"dir": "spec->impl", "what": o["what"], "files": len(c["v"]),
+        ctx.violation({"dir": "spec->impl", "profile": profile, "what": o["what"], "files": len(c["v"]),
                        "lens": [len(f[1]) for f in c["v"]][:12], "got": cc.shrink(o["got"], 300)},
                       {"case": one, "got": cc.shrink(o["got"])})
 
@@ -32,6 +32,7 @@ def run(ctx):
     cases = cc.generate(ctx, "MC_Fe9Pack", "Gen_Fe9Pack.cfg")
     summ, mism, unb = cc.replay(ctx, binary, "pack-replay", cases, "pack")
     _report(ctx, cases, mism)
+    _report(ctx, cases, cc.replay_checked(ctx, "pack-replay", cases, "pack"), profile="checked")
     ctx.traces += summ["images"] + summ["cases"]
     ctx.evaluations += summ["images"] + 2 * summ["cases"]
     ctx.nontrivial += sum(1 + len(c["layouts"]) for c in cases if c["v"])
@@ -40,7 +41,7 @@ def run(ctx):
     ctx.extra["generated_values"] = len(cases)
     ctx.extra["images_parsed"] = summ["images"]
     # impl -> spec
-    runs, max_files = ctx.pick((60, 300), (600, 300))
+    runs, max_files = ctx.pick((60, 300), (3000, 300))
     tpath = ctx.path("pack_trace.ndjson")
     ctx.harness(binary, ["pack-record", tpath, str(runs), str(max_files)] + ([] if ctx.quick() else ["big"]))
     events = vlib.read_ndjson(tpath)
